@@ -95,6 +95,18 @@ CLAIMS = {
         "note": "println texts contain no tabs here: the statement is about bar lines.",
         "technique": "runtime monitoring: byte scan of the terminal call log + model comparison after every operation",
     },
+    "C06": {
+        "text": "Exploration: 2-30-step histories (incl. println, suspend, 1 ms steady tick, wrap_iter, every finish variant) applied in lock-step to a hidden bar and to a visible twin on a spy terminal; hidden kinds: hidden() target, member of MultiProgress::with_draw_target(hidden()), bar removed from a spy-backed MultiProgress (the spy's call counter must not move for any call on that bar or its drop), and - in child processes whose stdout and stderr are pipes, i.e. the real console::Term code path with is_term() == false - stderr(), stdout(), stderr_with_hz(60) targets and MultiProgress::new(); getters (position, length, message, prefix, is_finished) and return values are compared after every step; any byte on the children's pipes is a violation.",
+        "design_ref": "DESIGN.md §4 C06",
+        "note": "Trusted: the OS pipe as byte counter; the visible twin as the reference for the logical state.",
+        "technique": "runtime monitoring: silence monitor (terminal call counter / pipe byte count) + lock-step twin comparison",
+    },
+    "C18": {
+        "text": "Fault enumeration: every base history (single-bar and MultiProgress alphabets incl. set_tab_width, suspend, println, finish, drop) is run fault-free to count its n terminal calls and then re-run for every k in 1..=n twice - only call k fails / call k and all later calls fail (exhaustive in k up to 400 calls); each faulty run is followed by a probe battery on every bar (tick, set_message, inc, println, suspend, set_tab_width, set_length, force_draw, clone+drop, finish), on the MultiProgress (println, clear, suspend) and by dropping everything; monitors: no panic anywhere (release and debug builds), io::Result-returning calls report an error that occurred inside them, getters equal the fault-free model.",
+        "design_ref": "DESIGN.md §4 C18",
+        "note": "The fault index k is enumerated completely per history; the histories themselves are sampled. Faults are io::Error values returned by the spy terminal; partial writes are not modelled.",
+        "technique": "runtime monitoring with fault injection at the TermLike boundary, exhaustive in the fault index",
+    },
 }
 
 ALL = [f"C{n:02d}" for n in range(1, 20)]
